@@ -182,17 +182,27 @@ def _iter_token_check(fn: ast.FunctionDef) -> tuple[bool, bool]:
 
 
 def _coerce_shape(fn: ast.FunctionDef) -> tuple[list[str], list[str], list[str], str]:
+    """guards (tests of the top-level ifs), handlers ("what is tried | exceptions caught -> class raised", in source
+    order), the parts of the error f-string, and the class of the first top-level raise"""
     guards = [ast.unparse(st.test) for st in _body(fn) if isinstance(st, ast.If)]
-    caught: list[str] = []
+    handlers: list[str] = []
     raised = ""
     parts: list[str] = []
     for n in ast.walk(fn):
-        if isinstance(n, ast.ExceptHandler) and n.type is not None:
-            caught = [ast.unparse(e) for e in (n.type.elts if isinstance(n.type, ast.Tuple) else [n.type])]
-            for r in n.body:
-                if isinstance(r, ast.Raise) and isinstance(r.exc, ast.Call):
-                    raised = ast.unparse(r.exc.func)
+        if isinstance(n, ast.Try):
+            tried = "; ".join(ast.unparse(x) for x in n.body)
+            for h in n.handlers:
+                caught = [ast.unparse(e) for e in (h.type.elts if isinstance(h.type, ast.Tuple) else [h.type])] if h.type is not None else ["*"]
+                cls = ""
+                for r in h.body:
+                    if isinstance(r, ast.Raise) and isinstance(r.exc, ast.Call):
+                        cls = ast.unparse(r.exc.func)
+                handlers.append(f"{tried} | {', '.join(caught)} -> {cls}")
         if isinstance(n, ast.Raise) and isinstance(n.exc, ast.Call) and n.exc.args and isinstance(n.exc.args[0], ast.JoinedStr):
+            if not raised:
+                raised = ast.unparse(n.exc.func)
+            elif raised != ast.unparse(n.exc.func):
+                raised = "<differing classes>"
             p = []
             for v in n.exc.args[0].values:
                 p.append(v.value if isinstance(v, ast.Constant) else "{" + ast.unparse(v.value) + "}")
@@ -200,7 +210,7 @@ def _coerce_shape(fn: ast.FunctionDef) -> tuple[list[str], list[str], list[str],
                 parts = p
             elif parts != p:
                 parts = ["<differing messages>"]
-    return guards, caught, parts, raised
+    return guards, handlers, parts, raised
 
 
 def _raise_msg(fn: ast.FunctionDef) -> str:
@@ -249,7 +259,7 @@ def emit() -> dict[str, str]:
 
     sv = _serve_stream_shape(_fn(t_server, "_serve_stream"))
     hv = _http_server_cancel_shape(_fn(t_app, "_run_stream_exchange_sync"))
-    guards, caught, parts, raised = _coerce_shape(_fn(t_wire, "_coerce_input_batch"))
+    guards, handlers, parts, raised = _coerce_shape(_fn(t_wire, "_coerce_input_batch"))
     coerce_sites = {
         "pipe": "_coerce_input_batch(input_batch, input_schema)" in ast.unparse(_fn(t_server, "_serve_stream")),
         "http": "_coerce_input_batch(input_batch, input_schema)" in ast.unparse(_fn(t_app, "_run_http_exchange_turn")),
@@ -284,8 +294,9 @@ def cancelKey : String := {lean_str(cancel_key)}
 /-! shapes -/
 /-- tests of the top-level `if` statements of `_coerce_input_batch`, in order -/
 def coerceGuards : List String := {sl(guards)}
-/-- exceptions of `batch.cast` converted, and the class raised instead -/
-def coerceCastCaught : List String := {sl(caught)}
+/-- the try blocks of `_coerce_input_batch`: "statements | exceptions caught -> class raised" -/
+def coerceHandlers : List String := {sl(handlers)}
+/-- the one class every refusal is raised as -/
 def coerceCastRaises : String := {lean_str(raised)}
 /-- `_coerce_input_batch(input_batch, input_schema)` is applied in `_serve_stream` and in `_run_http_exchange_turn` -/
 def coerceAtPipe : Bool := {lb(coerce_sites["pipe"])}
